@@ -1,25 +1,28 @@
 #!/bin/bash
-# Sensitivity helper: ./mut.sh <Cnn> <file-in-repo> <python-old> <python-new>
-# Applies a one-off textual mutation to /repo/<file>, runs the quick check, reverts.
+# Sensitivity helper: ./mut.sh <Cnn> <file-in-repo> <old-text> <new-text>
+# Applies a one-off textual mutation to a scratch worktree of /repo (never /repo itself),
+# runs the check against it (VERIF_REPO), removes the worktree.
 prop=$1; file=$2; old=$3; new=$4
-cd /repo || exit 2
-if [ -n "$(git status --porcelain)" ]; then echo "repo dirty"; exit 2; fi
-python3 - "$file" "$old" "$new" <<'EOF'
+WT=/tmp/mutwt.$$
+git -C /repo worktree add -q --detach $WT HEAD || exit 2
+cleanup() { git -C /repo worktree remove --force $WT 2>/dev/null; rm -rf /tmp/mut_replays.$$; }
+trap cleanup EXIT
+cd $WT || exit 2
+python3 - "$file" "$old" "$new" <<'PY'
 import sys
 p,old,new=sys.argv[1:4]
 s=open(p).read()
 if old not in s:
     print("PATTERN NOT FOUND"); sys.exit(3)
 open(p,'w').write(s.replace(old,new,1))
-EOF
+PY
 rc=$?
-if [ $rc -ne 0 ]; then git checkout -- .; exit $rc; fi
+[ $rc -ne 0 ] && exit $rc
 git diff --stat | tail -1
 export GOFLAGS=-mod=mod GOPROXY=off GOSUMDB=off GOTOOLCHAIN=local
-if ! go build ./... ; then echo "MUTANT DOES NOT BUILD"; git checkout -- .; exit 3; fi
+if ! go build ./... ; then echo "MUTANT DOES NOT BUILD"; exit 3; fi
 cd /verif
-VERIF_REPLAYS=/tmp/mut_replays ./check "$prop" --tier ${TIER:-quick} | cut -c1-700
+cp evidence/$prop.json /tmp/ev.$$.json 2>/dev/null
+VERIF_REPO=$WT VERIF_REPLAYS=/tmp/mut_replays.$$ ./check "$prop" --tier ${TIER:-quick} | cut -c1-${CUT:-700}
 echo "check exit=${PIPESTATUS[0]}"
-git -C /repo checkout -- .
-git -C /verif checkout -- evidence 2>/dev/null
-find /verif/replays -type f ! -name .gitkeep -delete
+[ -f /tmp/ev.$$.json ] && mv /tmp/ev.$$.json evidence/$prop.json
